@@ -111,9 +111,12 @@ func observeIC(ctx context.Context, mod api.Module) string {
 }
 
 func expectIC(v impVals) string {
-	if uint64(v.Base)+uint64(len(icData)) > 65536 || uint64(v.Tb)+2 > icTable {
+	if uint64(v.Base)+uint64(len(icData)) > 65536 {
 		return "instantiation-error"
 	}
+	// an active element segment that does not fit is skipped by wazero (documented in applyElements: "we ignore
+	// it"), the instance is created; that deviation from the specification is not an isolation matter
+	tableOOB := uint64(v.Tb)+2 > icTable
 	mem := make([]byte, 65536)
 	copy(mem[v.Base:], icData)
 	h := fnv.New64a()
@@ -121,7 +124,7 @@ func expectIC(v impVals) string {
 	s := fmt.Sprintf("mem=%x first-nonzero=%d", h.Sum64(), v.Base)
 	for i := uint32(0); i < icTable; i++ {
 		k := 0
-		if i == v.Tb || i == v.Tb+1 {
+		if !tableOOB && (i == v.Tb || i == v.Tb+1) {
 			k = 1
 		}
 		s += fmt.Sprintf(" slot%d=%d", i, k)
